@@ -61,7 +61,7 @@ struct LoopCase {
     driver: String,
 }
 
-pub const DRIVERS: [&str; 5] = ["named-let", "callcc-backedge", "mutual-tail", "apply-tail", "do-nothing-but-builtins"];
+pub const DRIVERS: [&str; 6] = ["named-let", "callcc-backedge", "mutual-tail", "apply-tail", "do-nothing-but-builtins", "when-tail"];
 
 /// The loop that runs the garbage expression n times. The back edge differs: a tail call of a
 /// named-let procedure; the re-entry of a continuation captured once (no procedure is entered
@@ -90,6 +90,12 @@ fn loop_definition(driver: &str, garbage: &str) -> Vec<String> {
             format!("(define (%ping i n) (if (< i n) (begin {} (%pong (+ i 1) n)) 'done))", garbage),
             format!("(define (%pong i n) (if (< i n) (begin {} (%ping (+ i 1) n)) 'done))", garbage),
             "(define (%garbage-loop n) (%ping 0 n))".to_string(),
+        ],
+        // the back edge is the last expression of a one-armed conditional
+        "when-tail" => vec![
+            format!("(define (%wspin i n) (when (< i n) {} (%wspin (+ i 1) n)))", garbage),
+            "(define (%ispin i n) (if (< i n) (%ispin (+ i 1) n)))".to_string(),
+            "(define (%garbage-loop n) (%wspin 0 n) (%ispin 0 n) 'done)".to_string(),
         ],
         "apply-tail" => vec![
             format!("(define (%spin i n) (if (< i n) (begin {} (apply %spin (+ i 1) (list n))) 'done))", garbage),
